@@ -112,3 +112,59 @@ def enclosing_loops(n: ast.AST) -> list[ast.AST]:
             out.append(cur)
         cur = parent(cur)
     return out
+
+
+def _own_stores(node: Node, var: str) -> bool:
+    """Does the CFG node's own evaluation (not its nested blocks) bind `var`?"""
+    s = node.stmt
+    if s is None:
+        return False
+
+    def binds(t) -> bool:
+        return any(isinstance(x, ast.Name) and x.id == var and isinstance(x.ctx, (ast.Store, ast.Del)) for x in ast.walk(t))
+
+    if node.kind == "for" and isinstance(s, (ast.For, ast.AsyncFor)):
+        return binds(s.target)
+    if node.kind == "with" and isinstance(s, (ast.With, ast.AsyncWith)):
+        return any(i.optional_vars is not None and binds(i.optional_vars) for i in s.items)
+    if node.kind == "except" and isinstance(s, ast.ExceptHandler):
+        return s.name == var
+    if node.kind == "test":
+        t = getattr(s, "test", None) or getattr(s, "subject", None)
+        return t is not None and any(isinstance(x, ast.NamedExpr) and binds(x.target) for x in ast.walk(t))
+    if isinstance(s, (ast.Assign, ast.AugAssign, ast.AnnAssign, ast.Delete)):
+        tg = s.targets if isinstance(s, (ast.Assign, ast.Delete)) else [s.target]
+        if any(binds(t) for t in tg):
+            return True
+    if isinstance(s, (ast.Import, ast.ImportFrom)):
+        return any((a.asname or a.name.split(".")[0]) == var for a in s.names)
+    if isinstance(s, (ast.FunctionDef, ast.AsyncFunctionDef, ast.ClassDef)):
+        return s.name == var
+    return any(isinstance(x, ast.NamedExpr) and binds(x.target) for x in ast.walk(s)) if isinstance(s, ast.stmt) and not isinstance(
+        s, (ast.If, ast.For, ast.While, ast.With, ast.Try, ast.FunctionDef, ast.ClassDef)) else False
+
+
+def reaching_defs(cfg: CFG, var: str) -> dict[int, frozenset[int]]:
+    """Classical reaching definitions of one local: node id → ids of the definition nodes whose value of `var`
+    may be current when the node *starts* (the entry node stands for the parameter / unbound)."""
+    gen = {n.id: _own_stores(n, var) for n in cfg.nodes}
+    IN: dict[int, set[int]] = {n.id: set() for n in cfg.nodes}
+    OUT: dict[int, set[int]] = {n.id: set() for n in cfg.nodes}
+    OUT[cfg.entry.id] = {cfg.entry.id}
+    work = list(cfg.nodes)
+    while work:
+        n = work.pop(0)
+        if n is cfg.entry:
+            new_out = {cfg.entry.id}
+        else:
+            i = set()
+            for p in n.pred:
+                i |= OUT[p.id]
+            IN[n.id] = i
+            new_out = {n.id} if gen[n.id] else i
+        if new_out != OUT[n.id]:
+            OUT[n.id] = set(new_out)
+            for s, _ in n.succ:
+                if s not in work:
+                    work.append(s)
+    return {k: frozenset(v) for k, v in IN.items()}
